@@ -73,6 +73,23 @@ def gen_cases(seed, n, threads, max_assign):
             q["p"]["ps"].append(g.bgp(rng.choice([2, 3, 4])))
         if i % 8 == 3:
             q = G.twin_query(rng, quads, G.TWIN_KINDS[(i // 8) % len(G.TWIN_KINDS)])
+        if i % 8 == 5:
+            # merged default graph: two or three FROM graphs (a triple may be in several of them: the merge is duplicate-free) and a
+            # join whose patterns are generalised from the merged content, so that several left rows probe the same triple
+            srcs = [G.GRAPHS[0], G.GRAPHS[1]] + ([""] if False else [])
+            quads = sorted(set(quads) | {(s_, p_, o_, G.GRAPHS[(k + 1) % 2]) for k, (s_, p_, o_, g_) in enumerate(quads) if g_ == "" and k % 2 == 0})
+            merged = sorted({(s_, p_, o_, "") for s_, p_, o_, g_ in quads if g_ in srcs})
+            V, C = G.V, G.C
+            preds = sorted({x[1] for x in merged if G.kind_of(x[2]) == "iri"}) or [G.P_IRI[0]]
+            P, Q = rng.choice(preds), rng.choice(preds)
+            shape = [[[V("a"), C(P), V("b")], [V("c"), C(P), V("b")]],
+                     [[V("a"), C(P), V("b")], [V("b"), C(Q), V("c")]],
+                     [[V("a"), V("x"), V("b")], [V("c"), V("y"), V("b")]],
+                     [[V("a"), C(P), V("b")], [V("a"), C(Q), V("c")], [V("c"), V("x"), V("d")]]][(i // 8) % 4]
+            q = G.Gen(rng, set(), merged).select(1)
+            q["p"] = {"t": "join", "ps": [{"t": "bgp", "tps": shape}]}
+            q["star"], q["proj"], q["group"], q["fromnamed"] = True, [], [], []
+            q["from"] = srcs + ([G.GRAPHS[2]] if (i // 8) % 2 else [])
         wide = i % 8 == 7
         if wide:
             V, C = G.V, G.C
